@@ -266,7 +266,7 @@ pub fn suite<S: HasR, const N: usize>(mon: &mut Monitor, api: &SteerApi<S, N>) {
                 let g = sl(a, b, s);
                 let rg = rs(&g);
                 let sf = s.f64();
-                let near_anti = theta > core::f64::consts::PI - 0.05;
+                let near_anti = theta > core::f64::consts::PI - 0.1;
                 let zone = if near_anti { "near_antiparallel" } else if theta < 1e-3 { "near_parallel" } else { "regular" };
                 let tol = ang_tol::<S>(theta);
                 let inp = || format!("a={} b={} ({}) s={:?} theta={:e}", show(&a), show(&b), lb, s, theta);
@@ -389,22 +389,30 @@ macro_rules! quat_suite {
                 let tol = ang_tol::<$S>(omega) * 2.0;
                 c.event(vcommon::rng::hash_str(la) ^ (it % 24), true);
                 if c.need_sample() { c.sample(format!("{}: slerp {} -> {:?}", $tag, inp(), a.slerp(b, s))); }
-                // exact references
-                let (nl, sl): ([f64; 4], [f64; 4]) = {
+                // exact references along the shorter arc; when the operands are orthogonal on the 3-sphere
+                // (|dot| within rounding of 0) both arcs are equally short and either is accepted
+                let refs = |bs: &[f64; 4], omega: f64| -> ([f64; 4], [f64; 4]) {
                     let mut nl: [f64; 4] = core::array::from_fn(|k| af[k] + (bs[k] - af[k]) * sf);
                     let n = nl.iter().map(|x| x * x).sum::<f64>().sqrt();
                     for x in nl.iter_mut() { *x /= n; }
                     let sl: [f64; 4] = if omega < 1e-7 { nl } else { let so = omega.sin(); let (w0, w1) = (((1.0 - sf) * omega).sin() / so, (sf * omega).sin() / so); core::array::from_fn(|k| af[k] * w0 + bs[k] * w1) };
                     (nl, sl)
                 };
-                for (nm, g, exact) in [("Quat::lerp", a.lerp(b, s), nl), ("Quat::slerp", a.slerp(b, s), sl)] {
+                let (nl, sl) = refs(&bs, omega);
+                let ambiguous = dot.abs() <= 8.0 * eps;
+                let alt = { let nb = [-bs[0], -bs[1], -bs[2], -bs[3]]; refs(&nb, core::f64::consts::PI - omega) };
+                for (nm, g, exact, exact_alt) in [("Quat::lerp", a.lerp(b, s), nl, alt.0), ("Quat::slerp", a.slerp(b, s), sl, alt.1)] {
                     let gf = [g.x as f64, g.y as f64, g.z as f64, g.w as f64];
                     let gn = gf.iter().map(|x| x * x).sum::<f64>().sqrt();
                     c.ratio_t("unit", (gn - 1.0).abs() / (16.0 * eps + if nm == "Quat::slerp" { tol } else { 0.0 }));
                     if !((gn - 1.0).abs() <= 16.0 * eps + if nm == "Quat::slerp" { tol } else { 0.0 }) {
                         fail(&mut c, "interp", &[nm, "unit"], &inp, format!("{:?} norm {}", g, gn), "1".into(), String::new());
                     }
-                    let e = qangle(&gf, &exact);
+                    let mut e = qangle(&gf, &exact);
+                    if ambiguous {
+                        c.boundary();
+                        e = e.min(qangle(&gf, &exact_alt));
+                    }
                     c.ratio_t(nm, e / tol);
                     if !(e <= tol) {
                         fail(&mut c, "interp", &[nm, "angle"], &inp, format!("{:?}", g), format!("{:?}", exact), format!("{:e} rad from the exact interpolant along the shorter arc (tol {:e})", e, tol));
